@@ -68,7 +68,7 @@ pub fn random_cfg(rng: &mut Rng, focus: u8) -> PeerCfg {
         tx_buf: *rng.pick(&[1usize, 64, 1000, 4096, 65535, 100_000]),
         active: rng.chance(1, 3),
         peer_mss: *rng.pick(&[None, Some(0), Some(1), Some(47), Some(48), Some(100), Some(536), Some(1460), Some(65535)]),
-        peer_ws: *rng.pick(&[None, None, Some(0), Some(1), Some(2), Some(7), Some(14)]),
+        peer_ws: *rng.pick(&[None, None, Some(0), Some(1), Some(2), Some(7), Some(14), Some(15), Some(255)]),
         peer_ts: rng.chance(1, 3),
         peer_sack: rng.bool(),
         irs,
